@@ -152,13 +152,14 @@ class BaseValidator(object):
           :py:meth:`cutplace.checks.AbstractCheck.check_at_end` fails.
         """
         if not self._is_closed:
+            # Closed even if a check fails, so each check is asked only once.
+            self._is_closed = True
             try:
                 for check_name in self.cid.check_names:
                     self.cid.check_map[check_name].check_at_end(self.location)
             finally:
                 for check in self.cid.check_map.values():
                     check.cleanup()
-            self._is_closed = True
 
 
 class Reader(BaseValidator):
